@@ -12,6 +12,7 @@ TEXT = {
  "C05": ("Verus proves release discipline on the real decoders: every byte appended to the output is the result of a successful AEAD open under the session key with the next counter value; length fields are used only after their own open succeeded; Err yields no output. With the stated INT-CTXT hypothesis this gives prefix-only release.", "7 C05"),
  "C06": ("Verus proves acceptance postconditions on the real server-side decoders: a Shadowsocks stream is accepted only after an AEAD open under the sub-key derived from the configured key and the received salt (HKDF-SHA1 'ss-subkey' / BLAKE3 session subkey), and with identity headers only under the key of the registered user whose identity hash the header decrypts to. INT-CTXT of the AEAD is the stated hypothesis.", "7 C06"),
  "C10": ("Verus proves validate_timestamp accepts iff |clock - ts| <= 30 (all 2^64 timestamps), that a 2022 TCP stream is accepted only with the expected type byte, a fresh timestamp and a salt the replay cache did not hold, and that the cache keeps salts for the whole acceptance window (>= 61 s). The cache itself (Mutex<LruCache>, interior mutability) is an oracle, not verified; concurrency is out of reach.", "7 C10"),
+ "C16": ("Verus proves config::Mode::enable_{tcp,udp,quic} equal the README table for all five modes, and that the serde name tables of CipherKind (7 names + alias), Mode and Protocol -- generated mechanically from the enum attributes on every run -- equal the documented names with no catch-all variant. Which sockets startup opens, key-length validation in password_to_keys (string iterators) and the RustCrypto constructors are outside Verus' reach.", "7 C16"),
  "C07": ("Verus discharges, for every buffer content and decoder state, the panic-freedom obligations of each sync decoder under contract: every Buf read/advance/split/index has enough bytes (shim preconditions = documented panics of `bytes`), no reachable panic!/unwrap, no arithmetic overflow, loops terminate.", "7 C07"),
  "C11": ("Verus proves, for all inputs and states, that PacketWindowFilter::{new,default,reset,validate_packet_id} meet a raw contract; spec-level lemmas (lemma_step, lemma_history) derive the property statement for every finite sequence of 64-bit ids. No bound.", "7 C11"),
  "C12": ("Verus proves the nonce generator is +1 modulo 2^96 on the little-endian counter (carry-chain loop invariant + lemma_inc_val), that every Authenticator seal/open uses exactly the next counter value, that the chunk encoder advances it twice per chunk, and lemma_nonces_distinct proves pairwise distinctness for fewer than 2^96 uses. Freshness of RNG draws is assumed.", "7 C12"),
